@@ -1,11 +1,32 @@
-"""C18 — StringView vs std::string_view: banned NUL-terminated primitives, unsigned byte
-order, guard tables (small-model evaluation of the clamping/early-return prefix up to the first access),
-validated position reaches the access, raw scan bounds, relational derivation, overload roles.
+"""C18 — StringView vs std::string_view.
+
+Where the members look (small-model evaluation, bytes of the views are symbolic): banned NUL-terminated primitives
+(NO-CSTR-PRIMITIVE), unsigned byte order (BYTE-ORDER-UNSIGNED), guard tables of at / substr / copy and the find family
+(GUARD-TABLES: the clamping / early-return prefix up to the first access), the validated position reaches the access
+(POS-REACHES-ACCESS), raw scan bounds (SCAN-BOUND), relational derivation (REL-FROM-COMPARE), overload roles (OVERLOAD-ROLES).
+
+What the members answer (concrete evaluation, class ConcEval: the function is interpreted on concrete views / C strings /
+std::strings and integers and the outcome - value, bytes left in the view, byte referred to, throw / no throw - is compared with
+a Python reference of std::string_view's definition):
+  COMPARE-VALUE         the six overloads of compare(): sign of the result incl. the size tie-break (a proper prefix is smaller),
+                        bytes as unsigned char, substr clamping of (pos1, n1) / (pos2, n2), throw iff pos > size()
+  OPERATOR-VALUE        the member operators == != < > <= >= and the 24 non-member overloads against std::string / const char*
+  PREFIX-SUFFIX-VALUE   starts_with / ends_with (view, char, C string if there is one), remove_prefix / remove_suffix (which bytes
+                        remain, n <= size() as std::string_view requires)
+  ELEMENT-ACCESS-VALUE  front() back() operator[] at(): which byte of the view is referred to; at() throws iff pos >= size()
+  TO-STRING-VALUE       to_string() and the conversion to std::string: the bytes of the view, embedded NUL bytes kept
+The argument families are exhaustive small ones: every byte string over {00, 41, 80} up to length 2 (3 in the thorough tier) plus
+strings with 7f / ff and prefixes of each other, the default-constructed view, views of distinct bytes, positions and counts
+0..4, size() - 1, size(), size() + 1, 2^31, 2^32, 2^32 + 1, 2^63, npos - 1, npos.
 
 Verdict policy of this file: a violation is reported only for a concrete point of an evaluation (a row of the small model, a
 row of the truth table over the sign of compare(), forwarded arguments that resolve to the wrong parameters, a call of a
 C-string primitive on memory that provably belongs to a view, a relational comparison of two operands whose types are known
-to be plain char).  Whatever is not understood is recorded as 'cannot decide' (ck.deferred / dtable.Undecidable -> exit 2)."""
+to be plain char, a concrete call whose interpreted outcome differs from the reference or reads a byte outside the memory of
+its arguments).  Whatever is not understood is recorded as 'cannot decide' (ck.deferred / dtable.Undecidable -> exit 2): a
+construct the concrete interpreter does not model, undefined or unspecified behaviour it runs into (signed overflow, ordering
+of pointers into different objects, a result that depends on the magnitude - not the sign - of what a compare primitive
+returns), a member of the interface that is not there or has other parameters."""
 from engine import ir, dtable, match, cfg as cfgm
 from engine.ir import kids, strip_casts, const_int, ref_of
 
@@ -2001,6 +2022,1656 @@ def check_overloads(ck, tu):
             ck.violation("OVERLOAD-ROLES", fn.qname, sig(fn), "%s: it searches for %s at %s" % (why, fmt_term(fn, got[0]), fmt_term(fn, got[1])), fn.loc)
 
 
+# ---------------------------------------------------------------- concrete evaluation: results as values
+# The rules above decide WHERE a member looks (guards, offsets, scan starts).  The rules below decide WHAT the comparison,
+# prefix / suffix, element access and conversion members answer: the function is interpreted on concrete arguments - views,
+# C strings and std::strings over concrete bytes, concrete integers - and the result is compared with a direct Python
+# reference of std::string_view's definition.  The interpreter models the constructs exactly (64-bit LP64 integer types with
+# the conversions the AST spells out, pointers as (block, offset), objects with value semantics, the std primitives listed in
+# ConcEval.BUILTINS with the preconditions the standard gives them); what it does not model - and behaviour that is undefined
+# or unspecified in C++ - raises CUndec: 'cannot decide', never a verdict.
+class CUndec(Exception):
+    """a construct the concrete evaluation does not model, or undefined / unspecified behaviour was reached"""
+
+
+class CThrow(Exception):
+    """the evaluated C++ code throws"""
+
+
+class COutside(Exception):
+    """a byte outside the memory that a view / C string / std::string argument owns is read or written"""
+    def __init__(self, what):
+        Exception.__init__(self, what)
+        self.what = what
+
+
+class _CRet(Exception):
+    def __init__(self, v):
+        self.v = v
+
+
+INT_MODEL = {"bool": (1, False), "char": (8, True), "signed char": (8, True), "unsigned char": (8, False), "char8_t": (8, False),
+             "short": (16, True), "unsigned short": (16, False), "int": (32, True), "unsigned int": (32, False),
+             "long": (64, True), "unsigned long": (64, False), "long long": (64, True), "unsigned long long": (64, False)}
+STD_STRING = "std::basic_string<char>"
+STD_VIEW = "std::basic_string_view<char>"
+LOC_TAGS = ("vl", "bl", "fl")
+CAST_NODES = ("ImplicitCastExpr", "CStyleCastExpr", "CXXStaticCastExpr", "CXXFunctionalCastExpr", "CXXConstCastExpr", "CXXReinterpretCastExpr")
+NULLP = ("p", None, 0)
+
+
+class Block:
+    """a piece of memory: b = its bytes (everything outside is not readable); cell = the variable it is the storage of (&c)"""
+    __slots__ = ("b", "what", "cell", "w")
+
+    def __init__(self, b, what, cell=None, w=False):
+        self.b, self.what, self.cell, self.w = b, what, cell, w
+
+    def get(self, off):
+        if self.cell is not None:
+            if off == 0 and isinstance(self.cell[0], int):
+                return self.cell[0] & 0xFF
+            raise COutside("byte %d behind the address of a single character" % off)
+        if 0 <= off < len(self.b):
+            return self.b[off]
+        raise COutside("byte %d of %s (%d byte%s)" % (off, self.what, len(self.b), "" if len(self.b) == 1 else "s"))
+
+    def get_n(self, off, n):
+        if n == 0:
+            return []
+        if self.cell is not None:
+            if n == 1:
+                return [self.get(off)]
+            raise COutside("%d bytes from the address of a single character" % n)
+        if off < 0 or n < 0 or off + n > len(self.b):
+            raise COutside("%s bytes from offset %d of %s (%d byte%s)" % ("npos" if n == NPOS else n, off, self.what, len(self.b), "" if len(self.b) == 1 else "s"))
+        return self.b[off:off + n]
+
+    def put(self, off, v):
+        if self.cell is not None and off == 0:
+            self.cell[0] = v
+            return
+        if not self.w:
+            raise CUndec("write to read-only memory")
+        if 0 <= off < len(self.b):
+            self.b[off] = v & 0xFF
+            return
+        raise COutside("write to byte %d of %s (%d bytes)" % (off, self.what, len(self.b)))
+
+
+class Obj:
+    """an object of a class of the analysed code (StringView): fields by name, value semantics by copy()"""
+    __slots__ = ("ty", "f")
+
+    def __init__(self, ty, f):
+        self.ty, self.f = ty, f
+
+    def copy(self):
+        return Obj(self.ty, dict(self.f))
+
+
+class Str:
+    """a std::string: blk.b = its bytes followed by the terminating NUL"""
+    __slots__ = ("blk",)
+
+    def __init__(self, bs):
+        self.blk = Block(list(bs) + [0], "the std::string", w=True)
+
+    def bytes(self):
+        return self.blk.b[:-1]
+
+    def set(self, bs):
+        self.blk.b[:] = list(bs) + [0]
+
+    def copy(self):
+        return Str(self.bytes())
+
+
+def s64(v):
+    v &= M64
+    return v - (1 << 64) if v >> 63 else v
+
+
+def is_ptr(v):
+    return isinstance(v, tuple) and v[0] == "p"
+
+
+def is_rit(v):
+    return isinstance(v, tuple) and v[0] == "r"
+
+
+def is_loc(v):
+    return isinstance(v, tuple) and v[0] in LOC_TAGS
+
+
+def is_ref_ty(t):
+    return (t or "").rstrip().endswith("&")
+
+
+class ConcEval:
+    """interprets functions of the translation unit on concrete values.  Values: Python integers (the mathematical value, always
+    inside the range of the C++ type of the expression), ("p", Block|None, offset) = a pointer / std::string iterator, ("r", Block,
+    offset) = a std::reverse_iterator with that base, Obj = a StringView, Str = a std::string, ("L", fn, captures, this) = a closure.
+    Lvalues are locations: ("vl", cell) a variable, ("bl", Block, offset) a byte of memory, ("fl", Obj, field)."""
+    MAX_STEPS = 6000
+    MAX_DEPTH = 24
+
+    def __init__(self, tu, mag="unit"):
+        self.tu = tu
+        self.mag = mag              # magnitude of the result of the compare primitives (the standard fixes its sign only)
+        self.used_mag = False
+        self.env, self.this = {}, None
+        self.steps = self.depth = 0
+        self.addr = {}              # id(cell) -> Block standing for the storage of that variable
+        self.members = {}
+
+    # ------------------------------------------------------------ integers
+    def undec(self, what, e=None):
+        raise CUndec("%s%s" % (what, " at line %s" % e.get("l", "?") if isinstance(e, dict) else ""))
+
+    def model(self, ty, e=None):
+        m = INT_MODEL.get(bare_ty(ty))
+        if m is None:
+            self.undec("type %s is not an integer type of the model" % ty, e)
+        return m
+
+    def conv(self, v, ty, e=None):
+        """conversion of an integer to the integer type ty (modular, as C++20 defines it)"""
+        bits, signed = self.model(ty, e)
+        if bits == 1:
+            return int(v != 0)
+        v &= (1 << bits) - 1
+        if signed and v >> (bits - 1):
+            v -= 1 << bits
+        return v
+
+    def fit(self, v, ty, e):
+        """the mathematical result v of an arithmetic operation of type ty: wraps for unsigned types, is undefined on signed overflow"""
+        bits, signed = self.model(ty, e)
+        if not signed:
+            return v & ((1 << bits) - 1) if bits > 1 else int(v != 0)
+        if not -(1 << (bits - 1)) <= v < (1 << (bits - 1)):
+            self.undec("signed overflow (undefined behaviour)", e)
+        return v
+
+    def arith(self, op, x, y, ty, e):
+        if op == "+":
+            return self.fit(x + y, ty, e)
+        if op == "-":
+            return self.fit(x - y, ty, e)
+        if op == "*":
+            return self.fit(x * y, ty, e)
+        if op in ("/", "%"):
+            if y == 0:
+                self.undec("division by zero", e)
+            q = abs(x) // abs(y)
+            if (x < 0) != (y < 0):
+                q = -q
+            return self.fit(q if op == "/" else x - q * y, ty, e)
+        if op in ("&", "|", "^"):
+            bits, signed = self.model(ty, e)
+            m = (1 << bits) - 1
+            r = (x & m) & (y & m) if op == "&" else (x & m) | (y & m) if op == "|" else (x & m) ^ (y & m)
+            return self.conv(r, ty, e)
+        if op in ("<<", ">>"):
+            bits, signed = self.model(ty, e)
+            if not 0 <= y < max(bits, 32):
+                self.undec("shift count out of range", e)
+            if op == ">>":
+                return self.conv(x >> y, ty, e)
+            if x < 0:
+                self.undec("shift of a negative value", e)
+            return self.conv(x << y, ty, e)
+        self.undec("operator %s" % op, e)
+
+    @staticmethod
+    def relate(op, x, y):
+        return int(x < y if op == "<" else x > y if op == ">" else x <= y if op == "<=" else x >= y if op == ">=" else x == y if op == "==" else x != y)
+
+    # ------------------------------------------------------------ pointers and iterators
+    def it_add(self, it, n, e=None):
+        if is_ptr(it):
+            if it[1] is None and n != 0:
+                self.undec("arithmetic on a null pointer", e)
+            return ("p", it[1], s64(it[2] + n))
+        if is_rit(it):
+            if it[1] is None and n != 0:
+                self.undec("arithmetic on a reverse iterator of a null pointer", e)
+            return ("r", it[1], s64(it[2] - n))
+        self.undec("iterator arithmetic", e)
+
+    def it_diff(self, a, b, e=None):
+        """a - b"""
+        if is_ptr(a) and is_ptr(b):
+            if a[1] is not b[1]:
+                self.undec("difference of pointers into different objects", e)
+            return a[2] - b[2]
+        if is_rit(a) and is_rit(b):
+            if a[1] is not b[1]:
+                self.undec("difference of iterators into different objects", e)
+            return b[2] - a[2]
+        self.undec("iterator difference", e)
+
+    def it_loc(self, it, e=None, idx=0):
+        if is_ptr(it):
+            if it[1] is None:
+                raise COutside("the target of a null pointer")
+            return ("bl", it[1], s64(it[2] + idx))
+        if is_rit(it):
+            if it[1] is None:
+                raise COutside("the target of a null pointer")
+            return ("bl", it[1], s64(it[2] - 1 - idx))
+        self.undec("dereference of something that is not a pointer", e)
+
+    def it_cmp(self, op, a, b, e=None):
+        if a[0] != b[0]:
+            self.undec("comparison of different kinds of iterators", e)
+        if a[1] is not b[1]:
+            if op in ("==", "!=") and a[0] == "p":
+                return int(op == "!=")
+            self.undec("ordering of pointers into different objects (unspecified)", e)
+        x, y = (a[2], b[2]) if a[0] == "p" else (b[2], a[2])
+        return self.relate(op, x, y)
+
+    def range_bytes(self, first, last, e=None):
+        """the bytes of the valid range [first, last)"""
+        n = self.it_diff(last, first, e)
+        if n < 0:
+            self.undec("[first, last) is not a valid range", e)
+        if n == 0:
+            return []
+        if first[1] is None:
+            raise COutside("the target of a null pointer")
+        if is_ptr(first):
+            return first[1].get_n(first[2], n)
+        out = first[1].get_n(first[2] - n, n)
+        return out[::-1]
+
+    def read_n(self, p, n, e=None):
+        """n bytes from the pointer / iterator p on"""
+        if not is_ptr(p):
+            if is_rit(p):
+                if n == 0:
+                    return []
+                if p[1] is None:
+                    raise COutside("the target of a null pointer")
+                return p[1].get_n(p[2] - n, n)[::-1]
+            self.undec("a block of bytes is read through something that is not a pointer", e)
+        if n == 0:
+            return []
+        if p[1] is None:
+            raise COutside("the target of a null pointer")
+        return p[1].get_n(p[2], n)
+
+    def cstr_bytes(self, p, e=None, limit=None):
+        """the bytes before the first NUL from p on (at most limit)"""
+        if not is_ptr(p):
+            self.undec("a C string primitive on something that is not a pointer", e)
+        if p[1] is None:
+            raise COutside("the target of a null pointer")
+        out = []
+        off = p[2]
+        while limit is None or len(out) < limit:
+            c = p[1].get(off)
+            if c == 0:
+                break
+            out.append(c)
+            off += 1
+        return out
+
+    def sign_of(self, a, b):
+        """result of a three-way comparison primitive on the byte sequences a, b of equal length: the standard fixes the sign"""
+        self.used_mag = True
+        for x, y in zip(a, b):
+            if x != y:
+                return (x - y) if self.mag == "diff" else (1 if x > y else -1)
+        return 0
+
+    # ------------------------------------------------------------ locations
+    def load(self, v, ty=None, e=None):
+        if not (isinstance(v, tuple) and v[0] in LOC_TAGS):
+            return v
+        if v[0] == "vl":
+            r = v[1][0]
+            if r is UNINIT:
+                self.undec("read of an uninitialised variable", e)
+            return r
+        if v[0] == "fl":
+            r = v[1].f.get(v[2], UNINIT)
+            if r is UNINIT:
+                self.undec("read of an uninitialised member", e)
+            return r
+        bits, signed = self.model(ty if ty is not None else "char", e)
+        if bits != 8:
+            self.undec("memory read with a type that is not a character type", e)
+        c = v[1].get(v[2])
+        return c - 256 if signed and c >= 128 else c
+
+    def store(self, loc, v, e=None):
+        if not is_loc(loc):
+            self.undec("assignment to something that is not an lvalue", e)
+        if loc[0] == "vl":
+            if isinstance(loc[1][0], (Obj, Str)) and isinstance(v, (Obj, Str)):
+                self.assign_obj(loc[1][0], v, e)
+            else:
+                loc[1][0] = v
+        elif loc[0] == "fl":
+            loc[1].f[loc[2]] = v
+        else:
+            if not isinstance(v, int):
+                self.undec("a non-character is stored to memory", e)
+            loc[1].put(loc[2], v & 0xFF)
+
+    def assign_obj(self, dst, src, e=None):
+        if isinstance(dst, Obj) and isinstance(src, Obj) and dst.ty == src.ty:
+            dst.f = dict(src.f)
+        elif isinstance(dst, Str) and isinstance(src, Str):
+            dst.set(src.bytes())
+        else:
+            self.undec("assignment between objects of different types", e)
+
+    def address(self, cell):
+        b = self.addr.get(id(cell))
+        if b is None or b.cell is not cell:
+            b = self.addr[id(cell)] = Block(None, "a variable", cell=cell)
+        return b
+
+    # ------------------------------------------------------------ expressions
+    def ev(self, e):
+        """the value of e (an lvalue is read)"""
+        if e is None:
+            self.undec("missing expression")
+        if "cval" in e and bare_ty(e.get("ty")) in INT_MODEL:
+            return self.conv(int(e["cval"]), e.get("ty"), e)
+        v = self.raw(e)
+        if isinstance(v, tuple) and v[0] in LOC_TAGS:
+            return self.load(v, e.get("ty"), e)
+        return v
+
+    def truth(self, e):
+        v = self.ev(e)
+        if isinstance(v, int):
+            return v != 0
+        if is_ptr(v):
+            return v[1] is not None
+        self.undec("condition that is neither an integer nor a pointer", e)
+
+    def raw(self, e):
+        """value of a prvalue, location of an lvalue"""
+        if e is None:
+            self.undec("missing expression")
+        self.steps += 1
+        if self.steps > self.MAX_STEPS:
+            self.undec("step budget of the evaluation exhausted", e)
+        k = e["k"]
+        h = self.DISPATCH.get(k)
+        if h is not None:
+            return h(self, e)
+        if "callee" in e:
+            return self.call(e)
+        self.undec("%s is not modelled" % k, e)
+
+    def x_literal(self, e):
+        return self.conv(int(e["val"]), e.get("ty"), e)
+
+    def x_null(self, e):
+        return NULLP
+
+    def x_string(self, e):
+        if "bytes" not in e:
+            self.undec("wide string literal", e)
+        return ("p", Block(list(e["bytes"]) + [0], "a string literal"), 0)
+
+    def x_declref(self, e):
+        r = e["ref"]
+        loc = self.env.get(r["id"])
+        if loc is not None:
+            return loc
+        if r.get("qname") == SV + "::npos":
+            return NPOS
+        if "cval" in e:
+            return self.conv(int(e["cval"]), e.get("ty"), e)
+        self.undec("reference to %s, which is not a variable of the evaluated functions" % r.get("name"), e)
+
+    def x_member(self, e):
+        if e.get("member") == "npos" and e.get("owner") == SV:
+            return NPOS
+        if e.get("method") or e.get("static"):
+            self.undec("member %s" % e.get("member"), e)
+        base = self.ev(kids(e)[0]) if kids(e) else None
+        if isinstance(base, Obj) and e.get("member") in base.f:
+            return ("fl", base, e["member"])
+        self.undec("member %s of something that is not an object of the model" % e.get("member"), e)
+
+    def x_this(self, e):
+        if self.this is None:
+            self.undec("this outside a member function", e)
+        return self.this
+
+    def x_unary(self, e):
+        op, x = e.get("op"), kids(e)[0]
+        if op == "*":
+            v = self.ev(x)
+            if isinstance(v, Obj):
+                return v
+            return self.it_loc(v, e)
+        if op == "&":
+            r = self.raw(x)
+            if isinstance(r, Obj):
+                return r
+            if is_loc(r):
+                if r[0] == "bl":
+                    return ("p", r[1], r[2])
+                if r[0] == "vl":
+                    if isinstance(r[1][0], (Obj, Str)):
+                        return r[1][0]
+                    if bare_ty(x.get("ty")) in ("char", "signed char", "unsigned char"):
+                        return ("p", self.address(r[1]), 0)
+            self.undec("address of this expression", e)
+        if op == "!":
+            return int(not self.truth(x))
+        if op in ("-", "+", "~"):
+            v = self.ev(x)
+            if not isinstance(v, int):
+                self.undec("unary %s on a non-integer" % op, e)
+            if op == "~":
+                return self.conv(~v, e.get("ty"), e)
+            return self.fit(-v if op == "-" else v, e.get("ty"), e)
+        if op in ("++", "--"):
+            loc = self.raw(x)
+            old = self.load(loc, x.get("ty"), e)
+            d = 1 if op == "++" else -1
+            new = self.it_add(old, d, e) if isinstance(old, tuple) else self.fit(old + d, x.get("ty"), e) if isinstance(old, int) else self.undec("%s on this value" % op, e)
+            self.store(loc, new, e)
+            return old if e.get("postfix") else loc
+        self.undec("unary operator %s" % op, e)
+
+    def binop_values(self, op, x, y, e, ty):
+        """x op y for integers, pointers and iterators"""
+        xi, yi = isinstance(x, int), isinstance(y, int)
+        if xi and yi:
+            if op in ("<", ">", "<=", ">=", "==", "!="):
+                return self.relate(op, x, y)
+            return self.arith(op, x, y, ty, e)
+        xt, yt = isinstance(x, tuple) and x[0] in ("p", "r"), isinstance(y, tuple) and y[0] in ("p", "r")
+        if xt and yi and op in ("+", "-"):
+            return self.it_add(x, y if op == "+" else -y, e)
+        if xi and yt and op == "+":
+            return self.it_add(y, x, e)
+        if xt and yt:
+            if op == "-":
+                return self.it_diff(x, y, e)
+            if op in ("<", ">", "<=", ">=", "==", "!="):
+                return self.it_cmp(op, x, y, e)
+        self.undec("operator %s on these operands" % op, e)
+
+    def x_binary(self, e):
+        op = e.get("op")
+        l, r = kids(e)[0], kids(e)[1]
+        if op == ",":
+            self.raw(l)
+            return self.raw(r)
+        if op == "&&":
+            return int(self.truth(l) and self.truth(r))
+        if op == "||":
+            return int(self.truth(l) or self.truth(r))
+        if op == "=":
+            loc = self.raw(l)
+            self.store(loc, self.ev(r), e)
+            return loc
+        return self.binop_values(op, self.ev(l), self.ev(r), e, e.get("ty"))
+
+    def x_compound(self, e):
+        op = e.get("op", "")[:-1]
+        l, r = kids(e)[0], kids(e)[1]
+        loc = self.raw(l)
+        cur = self.load(loc, l.get("ty"), e)
+        y = self.ev(r)
+        if isinstance(cur, int) and isinstance(y, int):
+            cty = e.get("cty") or l.get("ty")
+            v = self.conv(self.arith(op, self.conv(cur, cty, e), self.conv(y, cty, e), cty, e), l.get("ty"), e)
+        else:
+            v = self.binop_values(op, cur, y, e, l.get("ty"))
+        self.store(loc, v, e)
+        return loc
+
+    def x_cond(self, e):
+        c0, a, b = kids(e)
+        return self.raw(a) if self.truth(c0) else self.raw(b)
+
+    def x_cast(self, e):
+        c = e.get("cast")
+        x = kids(e)[0] if kids(e) else None
+        if c in ("IntegralCast", "BooleanToSignedIntegral"):
+            v = self.ev(x)
+            if not isinstance(v, int):
+                self.undec("integral conversion of a non-integer", e)
+            return self.conv(v, e.get("ty"), e)
+        if c == "IntegralToBoolean":
+            v = self.ev(x)
+            if not isinstance(v, int):
+                self.undec("conversion of a non-integer to bool", e)
+            return int(v != 0)
+        if c == "PointerToBoolean":
+            return int(self.truth(x))
+        if c in ("NoOp", "LValueToRValue", "ConstructorConversion", "UserDefinedConversion", "ArrayToPointerDecay"):
+            return self.raw(x)
+        if c == "NullToPointer":
+            return NULLP
+        if c == "BitCast":
+            v = self.ev(x)
+            if is_ptr(v):
+                return v
+            self.undec("bit cast of a non-pointer", e)
+        if c == "ToVoid":
+            self.raw(x)
+            return 0
+        self.undec("conversion %s" % c, e)
+
+    def x_index(self, e):
+        a, b = self.ev(kids(e)[0]), self.ev(kids(e)[1])
+        if isinstance(a, int):
+            a, b = b, a
+        if not isinstance(b, int):
+            self.undec("subscript that is not an integer", e)
+        return self.it_loc(a, e, b)
+
+    def x_lambda(self, e):
+        fn = self.tu.by_did.get(e.get("fn"))
+        if fn is None or fn.body is None:
+            self.undec("closure without a body", e)
+        caps = {}
+        for c in e.get("captures", []):
+            if c.get("name") == "this":
+                continue
+            loc = self.env.get(c.get("id"))
+            if loc is None:
+                self.undec("capture of %s" % c.get("name"), e)
+            if c.get("byref"):
+                caps[c["id"]] = loc
+            else:
+                v = self.load(loc, None, e) if loc[0] != "bl" else self.undec("capture of a byte by copy", e)
+                caps[c["id"]] = ("vl", [v.copy() if isinstance(v, (Obj, Str)) else v])
+        return ("L", fn, caps, self.this)
+
+    def x_throw(self, e):
+        raise CThrow()
+
+    def x_construct(self, e):
+        return self.construct(e)
+
+    DISPATCH = {"IntegerLiteral": x_literal, "CXXBoolLiteralExpr": x_literal, "CharacterLiteral": x_literal, "NullPtr": x_null,
+                "StringLiteral": x_string, "DeclRefExpr": x_declref, "MemberExpr": x_member, "This": x_this, "UnaryOperator": x_unary,
+                "BinaryOperator": x_binary, "CompoundAssignOperator": x_compound, "ConditionalOperator": x_cond,
+                "ArraySubscriptExpr": x_index, "LambdaExpr": x_lambda, "CXXThrowExpr": x_throw,
+                "CXXConstructExpr": x_construct, "CXXTemporaryObjectExpr": x_construct}
+    for _k in CAST_NODES:
+        DISPATCH[_k] = x_cast
+    del _k
+
+    # ------------------------------------------------------------ calls
+    def bind(self, fn, argnodes):
+        """evaluates the arguments of a call in the frame of the caller: -> environment of the callee"""
+        if len(argnodes) != len(fn.params):
+            self.undec("call of %s with %d arguments" % (fn.name, len(argnodes)))
+        env = {}
+        for prm, a in zip(fn.params, argnodes):
+            if a is None or a["k"] == "DefaultArg":
+                self.undec("default argument of %s" % fn.name, a)
+            if is_ref_ty(prm["ty"]):
+                r = self.raw(a)
+                env[prm["did"]] = r if is_loc(r) else ("vl", [r])
+            else:
+                v = self.ev(a)
+                env[prm["did"]] = ("vl", [v.copy() if isinstance(v, (Obj, Str)) else v])
+        return env
+
+    def enter(self, fn, this, env, body=True):
+        """runs the body of fn in a new frame: -> what it returns (a location for a function that returns a reference)"""
+        if self.depth >= self.MAX_DEPTH:
+            self.undec("call depth (recursion) in %s" % fn.name)
+        saved = (self.env, self.this)
+        self.env, self.this = env, this
+        self.depth += 1
+        try:
+            self.run(fn.body)
+        except _CRet as r:
+            v = r.v
+            if v is None:
+                return None
+            if is_ref_ty(fn.d.get("ret")):
+                return v
+            v = self.load(v, fn.d.get("ret"))
+            return v
+        finally:
+            self.depth -= 1
+            self.env, self.this = saved
+        if bare_ty(fn.d.get("ret")) == "void" or fn.kind in ("ctor", "dtor"):
+            return None
+        self.undec("%s falls off its end without returning a value (undefined behaviour)" % fn.name)
+
+    def construct(self, e):
+        c = e.get("callee") or {}
+        qn = c.get("qname") or ""
+        args = kids(e)
+        fn = self.tu.by_did.get(c.get("did"))
+        if fn is not None and fn.kind == "ctor" and fn.record == SV:
+            env = self.bind(fn, args)
+            obj = Obj(SV, {"ptr_": UNINIT, "size_": UNINIT})
+            saved = (self.env, self.this)
+            self.env, self.this = env, obj
+            self.depth += 1
+            try:
+                if self.depth >= self.MAX_DEPTH:
+                    self.undec("call depth in a constructor", e)
+                for i in fn.inits:
+                    if i.get("e") is None:
+                        self.undec("constructor initialiser without an expression", e)
+                    if i.get("delegating"):
+                        r = self.ev(i["e"])
+                        if not isinstance(r, Obj):
+                            self.undec("delegating constructor", e)
+                        obj.f = dict(r.f)
+                    elif i.get("field") in obj.f:
+                        obj.f[i["field"]] = self.ev(i["e"])
+                    else:
+                        self.undec("constructor initialiser of %s" % (i.get("field") or i.get("base")), e)
+            finally:
+                self.depth -= 1
+                self.env, self.this = saved
+            if fn.body is not None and kids(fn.body):
+                self.enter(fn, obj, env)
+            return obj
+        if qn == "std::basic_string::basic_string":
+            return self.make_string(e, [a for a in args if a is not None and a["k"] != "DefaultArg"])
+        if qn == "std::basic_string_view::basic_string_view" and bare_ty(e.get("ty")) == STD_VIEW:
+            vals = [self.ev(a) for a in args if a is not None and a["k"] != "DefaultArg"]
+            if len(vals) != len(args):
+                self.undec("default argument of a std::string_view constructor", e)
+            if not vals:
+                return Obj(STD_VIEW, {"p": NULLP, "n": 0})
+            if len(vals) == 1 and isinstance(vals[0], Obj) and vals[0].ty == STD_VIEW:
+                return vals[0].copy()
+            if len(vals) == 1 and is_ptr(vals[0]):
+                return Obj(STD_VIEW, {"p": vals[0], "n": len(self.cstr_bytes(vals[0], e))})
+            if len(vals) == 2 and is_ptr(vals[0]) and isinstance(vals[1], int):
+                return Obj(STD_VIEW, {"p": vals[0], "n": vals[1]})
+            if len(vals) == 2 and is_ptr(vals[0]) and is_ptr(vals[1]):
+                n = self.it_diff(vals[1], vals[0], e)
+                if n < 0:
+                    self.undec("[first, last) is not a valid range", e)
+                return Obj(STD_VIEW, {"p": vals[0], "n": n})
+            self.undec("this std::string_view constructor", e)
+        if qn == "std::reverse_iterator::reverse_iterator" and len(args) == 1:
+            v = self.ev(args[0])
+            if is_ptr(v):
+                return ("r", v[1], v[2])
+            if is_rit(v):
+                return v
+        if qn == "__gnu_cxx::__normal_iterator::__normal_iterator" and len(args) == 1:
+            v = self.ev(args[0])
+            if is_ptr(v):
+                return v
+        self.undec("construction of %s" % (e.get("ty") or qn), e)
+
+    def make_string(self, e, args):
+        tys = [bare_ty(a.get("ty")) for a in args]
+        vals = [self.ev(a) for a in args]
+        if not vals:
+            return Str([])
+        if len(vals) == 1 and isinstance(vals[0], Str):
+            return vals[0].copy()
+        if len(vals) == 1 and isinstance(vals[0], Obj) and vals[0].ty == STD_VIEW:
+            return Str(self.stdview_bytes(vals[0], e))
+        if len(vals) == 1 and is_ptr(vals[0]):
+            return Str(self.cstr_bytes(vals[0], e))
+        if len(vals) == 2 and is_ptr(vals[0]) and isinstance(vals[1], int) and tys[1] in INT_MODEL and INT_MODEL[tys[1]][0] > 8:
+            if vals[0][1] is None and vals[1] != 0:
+                self.undec("std::string(nullptr, n)", e)
+            return Str(self.read_n(vals[0], vals[1], e))
+        if len(vals) == 2 and isinstance(vals[0], tuple) and isinstance(vals[1], tuple) and vals[0][0] == vals[1][0] and vals[0][0] in ("p", "r"):
+            return Str(self.range_bytes(vals[0], vals[1], e))
+        if len(vals) == 2 and isinstance(vals[0], int) and isinstance(vals[1], int) and tys[1] in ("char",) and tys[0] in INT_MODEL and INT_MODEL[tys[0]][0] > 8:
+            if vals[0] > 4096:
+                self.undec("std::string(n, c) with a huge n", e)
+            return Str([vals[1] & 0xFF] * vals[0])
+        self.undec("this std::string constructor", e)
+
+    def call(self, e):
+        c = e["callee"]
+        qn, name = c.get("qname") or "", c["name"]
+        ks = kids(e)
+        fn = self.tu.by_did.get(c.get("did"))
+        if e.get("op") == "()" and e["k"] == "CXXOperatorCallExpr" and ks:
+            clo = self.ev(ks[0])
+            if isinstance(clo, tuple) and clo[0] == "L" and clo[1].did == c.get("did"):
+                return self.call_closure(clo, ks[1:])
+            self.undec("call of a function object", e)
+        if fn is not None and fn.body is not None and fn.kind in ("method", "operator", "fn", "function") and qn.startswith("tlx::"):
+            if fn.record is not None and not fn.d.get("static") and (e.get("member_call") or e["k"] == "CXXOperatorCallExpr"):
+                this = self.ev(ks[0])
+                if not isinstance(this, Obj):
+                    self.undec("member call on something that is not an object of the model", e)
+                return self.enter(fn, this, self.bind(fn, ks[1:]))
+            if e.get("member_call"):
+                ks = ks[1:]
+            return self.enter(fn, None, self.bind(fn, ks))
+        if c.get("record") == SV and name == "operator=" and len(ks) == 2:
+            dst, src = self.ev(ks[0]), self.ev(ks[1])
+            if isinstance(dst, Obj) and isinstance(src, Obj):
+                self.assign_obj(dst, src, e)
+                return dst
+        h = self.BUILTINS.get(qn)
+        if h is not None:
+            return h(self, e, ks)
+        rec = c.get("record")
+        if rec == "std::basic_string":
+            return self.string_member(e, name, ks)
+        if rec == "std::basic_string_view":
+            return self.stdview_member(e, name, ks)
+        if e["k"] == "CXXOperatorCallExpr" and (rec in ("std::reverse_iterator", "__gnu_cxx::__normal_iterator") or qn.startswith("std::operator") or qn.startswith("__gnu_cxx::operator")):
+            return self.iter_operator(e, ks)
+        if rec in ("std::reverse_iterator", "__gnu_cxx::__normal_iterator") and name == "base" and len(ks) == 1:
+            v = self.ev(ks[0])
+            if is_rit(v) or is_ptr(v):
+                return ("p", v[1], v[2])
+        self.undec("call of %s is not modelled" % (qn or name), e)
+
+    def call_closure(self, clo, argnodes):
+        _, fn, caps, this = clo
+        env = self.bind(fn, argnodes)
+        for d, loc in caps.items():
+            env[d] = loc
+        return self.enter(fn, this, env)
+
+    def call_value(self, f, vals, e):
+        """f(vals...) for a predicate handed to an algorithm: a closure of the evaluated code"""
+        if isinstance(f, tuple) and f[0] == "L" and len(f[1].params) == len(vals):
+            env = {p["did"]: ("vl", [v]) for p, v in zip(f[1].params, vals)}
+            env.update(f[2])
+            return self.enter(f[1], f[3], env)
+        self.undec("call of a function object", e)
+
+    def iter_operator(self, e, ks):
+        op = e.get("op")
+        if op in ("++", "--"):
+            loc = self.raw(ks[0])
+            old = self.load(loc, None, e)
+            if not (is_ptr(old) or is_rit(old)):
+                self.undec("%s on something that is not an iterator" % op, e)
+            self.store(loc, self.it_add(old, 1 if op == "++" else -1, e), e)
+            return old if len(ks) == 2 else loc
+        if op in ("+=", "-=") and len(ks) == 2:
+            loc = self.raw(ks[0])
+            old, n = self.load(loc, None, e), self.ev(ks[1])
+            if not ((is_ptr(old) or is_rit(old)) and isinstance(n, int)):
+                self.undec("%s on something that is not an iterator" % op, e)
+            self.store(loc, self.it_add(old, n if op == "+=" else -n, e), e)
+            return loc
+        vals = [self.ev(a) for a in ks]
+        if op == "*" and len(vals) == 1 and (is_ptr(vals[0]) or is_rit(vals[0])):
+            return self.it_loc(vals[0], e)
+        if op == "[]" and len(vals) == 2 and (is_ptr(vals[0]) or is_rit(vals[0])) and isinstance(vals[1], int):
+            return self.it_loc(vals[0], e, vals[1])
+        if len(vals) == 2 and all(isinstance(v, (int, tuple)) and not is_loc(v) for v in vals) and any(is_ptr(v) or is_rit(v) for v in vals) \
+                and op in ("+", "-", "<", ">", "<=", ">=", "==", "!="):
+            return self.binop_values(op, vals[0], vals[1], e, e.get("ty"))
+        if len(vals) == 2 and op in ("==", "!=", "<", ">", "<=", ">=") and all(isinstance(v, Str) or is_ptr(v) for v in vals) and any(isinstance(v, Str) for v in vals):
+            a, b = [v.bytes() if isinstance(v, Str) else self.cstr_bytes(v, e) for v in vals]
+            return self.relate(op, a, b)          # std::string compares like std::string_view: unsigned bytes, then the lengths
+        if len(vals) == 2 and op in ("==", "!=", "<", ">", "<=", ">=") and all(isinstance(v, Obj) and v.ty == STD_VIEW for v in vals):
+            return self.relate(op, self.stdview_bytes(vals[0], e), self.stdview_bytes(vals[1], e))
+        self.undec("operator %s of the standard library on these operands" % op, e)
+
+    def string_member(self, e, name, ks):
+        s = self.ev(ks[0]) if ks else None
+        if not isinstance(s, Str):
+            self.undec("std::string member on something that is not a std::string of the model", e)
+        args = [a for a in ks[1:] if a is not None and a["k"] != "DefaultArg"]
+        if len(args) != len(ks) - 1 and name not in ("append", "assign"):
+            self.undec("default argument of std::string::%s" % name, e)
+        vals = [self.ev(a) for a in args]
+        n = len(s.blk.b) - 1
+        if name in ("size", "length") and not vals:
+            return n
+        if name == "empty" and not vals:
+            return int(n == 0)
+        if name in ("data", "c_str", "begin", "cbegin") and not vals:
+            return ("p", s.blk, 0)
+        if name in ("end", "cend") and not vals:
+            return ("p", s.blk, n)
+        if name in ("rbegin", "crbegin") and not vals:
+            return ("r", s.blk, n)
+        if name in ("rend", "crend") and not vals:
+            return ("r", s.blk, 0)
+        if name == "operator[]" and len(vals) == 1 and isinstance(vals[0], int):
+            if vals[0] > n:
+                self.undec("std::string::operator[] behind size() (undefined behaviour)", e)
+            return ("bl", s.blk, vals[0])
+        if name == "at" and len(vals) == 1 and isinstance(vals[0], int):
+            if vals[0] >= n:
+                raise CThrow()
+            return ("bl", s.blk, vals[0])
+        if name in ("front", "back") and not vals:
+            if n == 0:
+                self.undec("std::string::%s of an empty string (undefined behaviour)" % name, e)
+            return ("bl", s.blk, 0 if name == "front" else n - 1)
+        if name in ("reserve", "shrink_to_fit"):
+            return None
+        if name == "clear" and not vals:
+            s.set([])
+            return None
+        if name == "push_back" and len(vals) == 1 and isinstance(vals[0], int):
+            s.set(s.bytes() + [vals[0] & 0xFF])
+            return None
+        if name == "resize" and vals and isinstance(vals[0], int) and all(isinstance(v, int) for v in vals) and len(vals) <= 2:
+            if vals[0] > 4096:
+                self.undec("std::string::resize to a huge size", e)
+            cur = s.bytes()
+            s.set(cur[:vals[0]] + [(vals[1] & 0xFF) if len(vals) == 2 else 0] * max(0, vals[0] - len(cur)))
+            return None
+        if name in ("append", "assign", "operator+=", "operator="):
+            tys = [bare_ty(a.get("ty")) for a in args]
+            if len(vals) == 1 and isinstance(vals[0], int) and name == "operator+=" and tys[0] == "char":
+                add = [vals[0] & 0xFF]
+            elif len(vals) == 1 and isinstance(vals[0], Str):
+                add = vals[0].bytes()
+            elif len(vals) == 1 and is_ptr(vals[0]):
+                add = self.cstr_bytes(vals[0], e)
+            elif len(vals) == 2 and is_ptr(vals[0]) and isinstance(vals[1], int) and tys[1] in INT_MODEL and INT_MODEL[tys[1]][0] > 8:
+                add = self.read_n(vals[0], vals[1], e)
+            elif len(vals) == 2 and isinstance(vals[0], tuple) and isinstance(vals[1], tuple) and vals[0][0] == vals[1][0] and vals[0][0] in ("p", "r"):
+                add = self.range_bytes(vals[0], vals[1], e)
+            elif len(vals) == 2 and isinstance(vals[0], int) and isinstance(vals[1], int) and tys[1] == "char" and vals[0] <= 4096:
+                add = [vals[1] & 0xFF] * vals[0]
+            else:
+                self.undec("this overload of std::string::%s" % name, e)
+            s.set((s.bytes() if name in ("append", "operator+=") else []) + list(add))
+            return s
+        if name == "compare" and len(vals) == 1 and (isinstance(vals[0], Str) or is_ptr(vals[0])):
+            o = vals[0].bytes() if isinstance(vals[0], Str) else self.cstr_bytes(vals[0], e)
+            a = s.bytes()
+            m = min(len(a), len(o))
+            r = self.sign_of(a[:m], o[:m])
+            return r if r else (len(a) > len(o)) - (len(a) < len(o))
+        self.undec("std::string::%s is not modelled" % name, e)
+
+    def stdview_bytes(self, v, e=None):
+        return self.read_n(v.f["p"], v.f["n"], e)
+
+    def stdview_member(self, e, name, ks):
+        """std::string_view itself, for code that delegates to it: the members whose definition is one line of the standard"""
+        v = self.ev(ks[0]) if ks else None
+        if not (isinstance(v, Obj) and v.ty == STD_VIEW):
+            self.undec("std::string_view member on something that is not a std::string_view of the model", e)
+        if any(a is None or a["k"] == "DefaultArg" for a in ks[1:]):
+            self.undec("default argument of std::string_view::%s" % name, e)
+        vals = [self.ev(a) for a in ks[1:]]
+        p, n = v.f["p"], v.f["n"]
+        if name in ("size", "length") and not vals:
+            return n
+        if name == "empty" and not vals:
+            return int(n == 0)
+        if name in ("data", "begin", "cbegin") and not vals:
+            return p
+        if name in ("end", "cend") and not vals:
+            return self.it_add(p, n, e) if n else p
+        if name == "compare" and len(vals) == 1 and isinstance(vals[0], Obj) and vals[0].ty == STD_VIEW:
+            a, b = self.stdview_bytes(v, e), self.stdview_bytes(vals[0], e)
+            m = min(len(a), len(b))
+            r = self.sign_of(a[:m], b[:m])
+            return r if r else (len(a) > len(b)) - (len(a) < len(b))
+        if name == "substr" and len(vals) == 2 and all(isinstance(x, int) for x in vals):
+            if vals[0] > n:
+                raise CThrow()
+            return Obj(STD_VIEW, {"p": self.it_add(p, vals[0], e) if vals[0] else p, "n": min(vals[1], n - vals[0])})
+        if name in ("starts_with", "ends_with") and len(vals) == 1 and isinstance(vals[0], Obj) and vals[0].ty == STD_VIEW:
+            a, b = self.stdview_bytes(v, e), self.stdview_bytes(vals[0], e)
+            return int(len(b) <= len(a) and (a[:len(b)] if name == "starts_with" else a[len(a) - len(b):]) == b)
+        if name == "at" and len(vals) == 1 and isinstance(vals[0], int):
+            if vals[0] >= n:
+                raise CThrow()
+            return self.it_loc(p, e, vals[0])
+        if name == "operator[]" and len(vals) == 1 and isinstance(vals[0], int):
+            if vals[0] >= n:
+                self.undec("std::string_view::operator[] outside the view (undefined behaviour)", e)
+            return self.it_loc(p, e, vals[0])
+        if name in ("front", "back") and not vals:
+            if n == 0:
+                self.undec("std::string_view::%s of an empty view (undefined behaviour)" % name, e)
+            return self.it_loc(p, e, 0 if name == "front" else n - 1)
+        self.undec("std::string_view::%s is not modelled" % name, e)
+
+    # -- primitives of the standard library.  Each one states its precondition: a range that is handed over must be readable
+    # -- completely (the standard allows the primitive to read all of it), so a byte outside the argument's memory is COutside.
+    def b_minmax(self, e, ks):
+        if len(ks) != 2:
+            self.undec("std::min / std::max with a comparator or an initializer list", e)
+        x, y = self.ev(ks[0]), self.ev(ks[1])
+        if not (isinstance(x, int) and isinstance(y, int)):
+            self.undec("std::min / std::max of non-integers", e)
+        if e["callee"]["name"] == "min":
+            return y if y < x else x
+        return y if x < y else x
+
+    def b_traits_compare(self, e, ks):
+        if len(ks) != 3:
+            self.undec("arity of %s" % e["callee"]["qname"], e)
+        p, q, n = self.ev(ks[0]), self.ev(ks[1]), self.ev(ks[2])
+        if not isinstance(n, int):
+            self.undec("length that is not an integer", e)
+        return self.sign_of(self.read_n(p, n, e), self.read_n(q, n, e))
+
+    def b_strlen(self, e, ks):
+        return len(self.cstr_bytes(self.ev(ks[0]), e))
+
+    def b_strcmp(self, e, ks):
+        """strcmp / strncmp: the characters are compared one after the other up to the first difference, the first NUL or n"""
+        lim = None
+        if e["callee"]["name"] == "strncmp":
+            lim = self.ev(ks[2])
+            if not isinstance(lim, int):
+                self.undec("length that is not an integer", e)
+        p, q = self.ev(ks[0]), self.ev(ks[1])
+        if not (is_ptr(p) and is_ptr(q)):
+            self.undec("a C string primitive on something that is not a pointer", e)
+        i = 0
+        while lim is None or i < lim:
+            if p[1] is None or q[1] is None:
+                raise COutside("the target of a null pointer")
+            a, b = p[1].get(p[2] + i), q[1].get(q[2] + i)
+            if a != b:
+                return self.sign_of([a], [b])
+            if a == 0:
+                break
+            i += 1
+        self.used_mag = True
+        return 0
+
+    def b_traits_find(self, e, ks):
+        nm = e["callee"]["qname"]
+        p, a, b = self.ev(ks[0]), self.ev(ks[1]), self.ev(ks[2])
+        n, c = (a, b) if nm == "std::char_traits::find" else (b, a)
+        if not (isinstance(n, int) and isinstance(c, int) and is_ptr(p)):
+            self.undec("arguments of %s" % nm, e)
+        c &= 0xFF
+        if nm != "std::char_traits::find":
+            # memchr reads the bytes one after the other and stops at the first match (C11 7.24.5.1)
+            for i in range(min(n, 1 << 16)):
+                if p[1] is None:
+                    raise COutside("the target of a null pointer")
+                if p[1].get(p[2] + i) == c:
+                    return self.it_add(p, i)
+            return NULLP
+        for i, x in enumerate(self.read_n(p, n, e)):
+            if x == c:
+                return self.it_add(p, i)
+        return NULLP
+
+    def b_traits_length(self, e, ks):
+        return len(self.cstr_bytes(self.ev(ks[0]), e))
+
+    def b_traits_eq(self, e, ks):
+        a, b = self.ev(ks[0]), self.ev(ks[1])
+        if not (isinstance(a, int) and isinstance(b, int)):
+            self.undec("char_traits::eq / lt of non-characters", e)
+        if e["callee"]["name"] == "eq":
+            return int((a & 0xFF) == (b & 0xFF))
+        return int((a & 0xFF) < (b & 0xFF))
+
+    def b_to_int(self, e, ks):
+        a = self.ev(ks[0])
+        if not isinstance(a, int):
+            self.undec("char_traits::to_int_type of a non-character", e)
+        return a & 0xFF
+
+    def two_ranges(self, e, ks):
+        vals = [self.ev(a) for a in ks]
+        if len(vals) not in (3, 4) or not all(isinstance(v, tuple) and v[0] in ("p", "r") for v in vals):
+            self.undec("%s with a predicate or on something that is not an iterator" % e["callee"]["qname"], e)
+        a = self.range_bytes(vals[0], vals[1], e)
+        if len(vals) == 4:
+            return a, self.range_bytes(vals[2], vals[3], e), True
+        return a, self.read_n(vals[2], len(a), e), False
+
+    def b_equal(self, e, ks):
+        a, b, four = self.two_ranges(e, ks)
+        return int(a == b)
+
+    def b_lexcmp(self, e, ks):
+        a, b, four = self.two_ranges(e, ks)
+        if not four:
+            self.undec("arity of std::lexicographical_compare", e)
+        t = bare_ty(ks[0].get("ty"))
+        if t not in ("char *", "unsigned char *", "std::reverse_iterator<const char *>", "__gnu_cxx::__normal_iterator<const char *, std::basic_string<char>>"):
+            self.undec("element type of the range of std::lexicographical_compare", e)
+        if t != "unsigned char *":
+            a, b = [x - 256 if x >= 128 else x for x in a], [x - 256 if x >= 128 else x for x in b]     # operator< of (signed) char
+        return int(a < b)
+
+    def b_distance(self, e, ks):
+        a, b = self.ev(ks[0]), self.ev(ks[1])
+        return self.it_diff(b, a, e)
+
+    def b_next(self, e, ks):
+        vals = [self.ev(a) for a in ks if a is not None and a["k"] != "DefaultArg"]
+        n = vals[1] if len(vals) == 2 else 1
+        if not vals or not isinstance(n, int):
+            self.undec("arguments of std::next / std::prev", e)
+        return self.it_add(vals[0], n if e["callee"]["name"] == "next" else -n, e)
+
+    def b_advance(self, e, ks):
+        loc, n = self.raw(ks[0]), self.ev(ks[1])
+        if not isinstance(n, int):
+            self.undec("arguments of std::advance", e)
+        self.store(loc, self.it_add(self.load(loc, None, e), n, e), e)
+        return None
+
+    def b_swap(self, e, ks):
+        a, b = self.raw(ks[0]), self.raw(ks[1])
+        if not (is_loc(a) and is_loc(b)):
+            self.undec("std::swap of objects", e)
+        x, y = self.load(a, ks[0].get("ty"), e), self.load(b, ks[1].get("ty"), e)
+        if isinstance(x, (Obj, Str)) or isinstance(y, (Obj, Str)):
+            self.undec("std::swap of objects", e)
+        self.store(a, y, e)
+        self.store(b, x, e)
+        return None
+
+    def write_n(self, dst, bs, e):
+        if not is_ptr(dst):
+            self.undec("output through something that is not a pointer", e)
+        if bs and dst[1] is None:
+            raise COutside("the target of a null pointer")
+        for i, c in enumerate(bs):
+            dst[1].put(dst[2] + i, c)
+
+    def b_copy(self, e, ks):
+        vals = [self.ev(a) for a in ks]
+        nm = e["callee"]["name"]
+        if nm in ("copy", "move") and len(vals) == 3 and e["callee"]["qname"].startswith("std::") and "char_traits" not in e["callee"]["qname"]:
+            bs = self.range_bytes(vals[0], vals[1], e)
+            self.write_n(vals[2], bs, e)
+            return self.it_add(vals[2], len(bs), e)
+        if nm == "copy_n" and len(vals) == 3 and isinstance(vals[1], int):
+            bs = self.read_n(vals[0], vals[1], e)
+            self.write_n(vals[2], bs, e)
+            return self.it_add(vals[2], len(bs), e)
+        if len(vals) == 3 and isinstance(vals[2], int):       # memcpy / memmove / char_traits::copy / move (dst, src, n)
+            bs = self.read_n(vals[1], vals[2], e)
+            self.write_n(vals[0], bs, e)
+            return vals[0]
+        self.undec("arguments of %s" % e["callee"]["qname"], e)
+
+    def b_all_any(self, e, ks):
+        first, last, f = self.ev(ks[0]), self.ev(ks[1]), self.ev(ks[2])
+        n = self.it_diff(last, first, e)
+        if n < 0:
+            self.undec("[first, last) is not a valid range", e)
+        nm = e["callee"]["name"]
+        for i in range(n):
+            it = self.it_add(first, i)
+            c = self.load(self.it_loc(it, e), "char", e)
+            if isinstance(f, int):
+                t = (c & 0xFF) == (f & 0xFF)
+            else:
+                r = self.call_value(f, [c], e)
+                t = r != 0 if isinstance(r, int) else self.undec("predicate result", e)
+            if nm in ("find_if", "find") and t:
+                return it
+            if nm == "find_if_not" and not t:
+                return it
+            if nm == "all_of" and not t:
+                return 0
+            if nm == "any_of" and t:
+                return 1
+            if nm == "none_of" and t:
+                return 0
+        return last if nm in ("find_if", "find_if_not", "find") else int(nm != "any_of")
+
+    BUILTINS = {"std::min": b_minmax, "std::max": b_minmax,
+                "std::char_traits::compare": b_traits_compare, "memcmp": b_traits_compare, "std::memcmp": b_traits_compare,
+                "strlen": b_strlen, "std::strlen": b_strlen, "std::char_traits::length": b_traits_length,
+                "strcmp": b_strcmp, "std::strcmp": b_strcmp, "strncmp": b_strcmp, "std::strncmp": b_strcmp,
+                "std::char_traits::find": b_traits_find, "memchr": b_traits_find, "std::memchr": b_traits_find,
+                "std::char_traits::eq": b_traits_eq, "std::char_traits::lt": b_traits_eq, "std::char_traits::to_int_type": b_to_int,
+                "std::equal": b_equal, "std::lexicographical_compare": b_lexcmp, "std::distance": b_distance,
+                "std::next": b_next, "std::prev": b_next, "std::advance": b_advance, "std::swap": b_swap,
+                "std::copy": b_copy, "std::copy_n": b_copy, "memcpy": b_copy, "std::memcpy": b_copy, "memmove": b_copy, "std::memmove": b_copy,
+                "std::char_traits::copy": b_copy, "std::char_traits::move": b_copy,
+                "std::find_if": b_all_any, "std::find_if_not": b_all_any, "std::find": b_all_any, "std::all_of": b_all_any,
+                "std::any_of": b_all_any, "std::none_of": b_all_any}
+
+    # ------------------------------------------------------------ statements
+    def run(self, s):
+        if s is None:
+            return
+        self.steps += 1
+        if self.steps > self.MAX_STEPS:
+            self.undec("step budget of the evaluation exhausted", s)
+        k = s["k"]
+        if k == "CompoundStmt":
+            for c in kids(s):
+                self.run(c)
+            return
+        if k == "ReturnStmt":
+            raise _CRet(self.raw(kids(s)[0]) if kids(s) and kids(s)[0] is not None else None)
+        if k == "IfStmt":
+            if "init" in s or "condvar" in s or s.get("constexpr"):
+                self.undec("if with a declaration", s)
+            c, t, e = (kids(s) + [None])[:3]
+            if self.truth(c):
+                self.run(t)
+            elif e is not None:
+                self.run(e)
+            return
+        if k == "DeclStmt":
+            for v in kids(s):
+                self.declare(v, s)
+            return
+        if k == "NullStmt":
+            return
+        if k in ("ForStmt", "WhileStmt", "DoStmt"):
+            if "condvar" in s:
+                self.undec("loop with a condition variable", s)
+            init, cond, inc, body = match.loop_parts(s)
+            if init is not None:
+                self.run(init)
+            first = k == "DoStmt"
+            while True:
+                self.steps += 1
+                if self.steps > self.MAX_STEPS:
+                    self.undec("step budget of the evaluation exhausted (loop)", s)
+                if not first and cond is not None and not self.truth(cond):
+                    return
+                first = False
+                try:
+                    self.run(body)
+                except _Break:
+                    return
+                except _Continue:
+                    pass
+                if inc is not None:
+                    self.raw(inc)
+        if k == "CXXForRangeStmt":
+            return self.range_for(s)
+        if k == "BreakStmt":
+            raise _Break()
+        if k == "ContinueStmt":
+            raise _Continue()
+        if k in ("SwitchStmt", "GotoStmt", "LabelStmt", "CXXTryStmt", "AttributedStmt", "CaseStmt", "DefaultStmt"):
+            self.undec("%s is not modelled" % k, s)
+        self.raw(s)
+
+    def declare(self, v, s):
+        if v is None or v["k"] != "VarDecl" or v.get("static"):
+            self.undec("declaration that is not a plain local variable", s)
+        init = kids(v)[0] if kids(v) else None
+        if v.get("isref") or is_ref_ty(v.get("ty")):
+            r = self.raw(init)
+            self.env[v["did"]] = r if is_loc(r) else ("vl", [r])
+            return
+        if init is None:
+            if bare_ty(v.get("ty")) not in INT_MODEL and not bare_ty(v.get("ty")).endswith("*"):
+                self.undec("object without an initialiser", s)
+            self.env[v["did"]] = ("vl", [UNINIT])
+            return
+        val = self.ev(init)
+        if isinstance(val, (Obj, Str)) and init["k"] not in ("CXXConstructExpr", "CXXTemporaryObjectExpr") and "callee" not in init:
+            val = val.copy()
+        self.env[v["did"]] = ("vl", [val])
+
+    def range_for(self, s):
+        rng, var, body = (kids(s) + [None, None])[:3]
+        r = self.ev(rng)
+        if isinstance(r, Str):
+            first, n = ("p", r.blk, 0), len(r.blk.b) - 1
+        elif isinstance(r, Obj) and r.ty == SV:
+            first, last = self.call_member(r, "begin"), self.call_member(r, "end")
+            if not (is_ptr(first) and is_ptr(last)):
+                self.undec("begin() / end() of the range", s)
+            n = self.it_diff(last, first, s)
+            if n < 0:
+                self.undec("[begin(), end()) is not a valid range", s)
+        else:
+            self.undec("range of the range-based for", s)
+        if var is None or var["k"] != "VarDecl":
+            self.undec("loop variable of the range-based for", s)
+        for i in range(n):
+            self.steps += 1
+            if self.steps > self.MAX_STEPS:
+                self.undec("step budget of the evaluation exhausted (loop)", s)
+            loc = self.it_loc(self.it_add(first, i), s)
+            if var.get("isref") or is_ref_ty(var.get("ty")):
+                self.env[var["did"]] = loc
+            else:
+                self.env[var["did"]] = ("vl", [self.conv(self.load(loc, "char", s), var.get("ty"), s)])
+            try:
+                self.run(body)
+            except _Break:
+                return
+            except _Continue:
+                pass
+
+    def call_member(self, obj, name):
+        fn = self.members.get(name)
+        if fn is None:
+            c = [f for f in self.tu.find(record=SV, name=name) if not f.params and f.body is not None]
+            if len(c) != 1:
+                self.undec("member %s() of the view" % name)
+            fn = self.members[name] = c[0]
+        return self.enter(fn, obj, {})
+
+    # ------------------------------------------------------------ entry
+    def invoke(self, fn, this, args):
+        """calls fn with ready-made argument values: -> ('ret', value or location) | ('throw',)"""
+        if len(args) != len(fn.params):
+            raise CUndec("%s takes %d parameters" % (fn.name, len(fn.params)))
+        env = {p["did"]: ("vl", [v]) for p, v in zip(fn.params, args)}
+        try:
+            return ("ret", self.enter(fn, this, env))
+        except CThrow:
+            return ("throw",)
+        except (_Break, _Continue):
+            raise CUndec("break / continue outside a loop")
+        except RecursionError:
+            raise CUndec("recursion")
+
+
+# ---------------------------------------------------------------- value rules: families of arguments, references, verdicts
+A3 = (0x00, 0x41, 0x80)                        # a NUL byte, an ASCII byte, a byte above 0x7F
+EXTRA_STRINGS = ((0x7F,), (0xFF,), (0x41, 0xFF), (0xFF, 0x41), (0x7F, 0x80), (0x41, 0x00, 0x80), (0x41, 0x00, 0x41), (0x41, 0x41, 0x41),
+                 (0x41, 0x41, 0x80), (0x00, 0x00, 0x41), (0x80, 0x41, 0x00))
+POS_FAMILY = (0, 1, 2, 3, 4, 1 << 31, 1 << 32, (1 << 32) + 1, 1 << 63, NPOS - 1, NPOS)
+N_FAMILY = (0, 1, 2, 3, 1 << 32, (1 << 32) + 1, NPOS - 1, NPOS)
+POS_N_SMALL = ((0, NPOS), (1, 1), (1, 2), (2, NPOS), (3, 0), (4, 1), (NPOS, 0), (0, 0), (1 << 32, 1), (0, (1 << 32) + 1), (1, NPOS - 1))
+THIS_SMALL = ((), (0x41,), (0x41, 0x80), (0x00, 0x41, 0x80), (0x80, 0x41, 0x00))
+OTHER_SMALL = ((), (0x41,), (0x80,), (0x00,), (0x41, 0x80), (0x41, 0x00), (0x41, 0x41), (0x00, 0x41, 0x80))
+DISTINCT = (0x41, 0x00, 0x80, 0xFF)            # views of distinct bytes: the byte tells its index
+CHARS = (0x00, 0x41, 0x7F, 0x80, 0xFF)
+
+
+def byte_strings(maxlen, alpha=A3):
+    import itertools
+    return [t for n in range(maxlen + 1) for t in itertools.product(alpha, repeat=n)]
+
+
+def value_strings(tier):
+    out = byte_strings(3 if tier == "thorough" else 2)
+    return out + [t for t in EXTRA_STRINGS if t not in out]
+
+
+def fmt_bytes(bs):
+    if bs is None:
+        return "StringView()"
+    return '"' + "".join(chr(c) if 0x20 <= c < 0x7F and c not in (0x22, 0x5C) else "\\x%02x" % c for c in bs) + '"'
+
+
+def fmt_int(v):
+    for base, nm in ((NPOS, "npos"), (1 << 63, "2^63"), (1 << 32, "2^32"), (1 << 31, "2^31")):
+        if base - 2 <= v <= base + 2 and v <= NPOS:
+            return nm if v == base else "%s%+d" % (nm, v - base)
+    return str(v)
+
+
+def make_view(bs):
+    if bs is None:                          # the default-constructed view: (nullptr, 0)
+        return Obj(SV, {"ptr_": NULLP, "size_": 0})
+    return Obj(SV, {"ptr_": ("p", Block(list(bs), "the view " + fmt_bytes(bs)), 0), "size_": len(bs)})
+
+
+def with_null(strings):
+    """pairs (a, b) of the family, and the default-constructed view (None) against every member of it, either side"""
+    for a in strings:
+        for b in strings:
+            yield a, b
+    for b in [None] + list(strings):
+        yield None, b
+        if b is not None:
+            yield b, None
+
+
+def make_cstr(bs):
+    return ("p", Block(list(bs) + [0], "the C string " + fmt_bytes(bs)), 0)
+
+
+def make_arg(ty, bs):
+    """an argument of the parameter type ty that stands for the byte string bs"""
+    t = bare_ty(ty)
+    if t == SV:
+        return make_view(bs)
+    if t == STD_STRING:
+        return Str(bs)
+    if t == "char *":
+        return make_cstr(bs)
+    raise CUndec("parameter type %s" % ty)
+
+
+def ref_cmp(a, b):
+    """std::string_view::compare: the bytes as unsigned char, a proper prefix is smaller"""
+    a, b = tuple(a or ()), tuple(b or ())
+    return (a > b) - (a < b)
+
+
+def ref_substr(a, pos, n):
+    """std::string_view::substr: None = throws std::out_of_range"""
+    if pos > len(a):
+        return None
+    return tuple(a[pos:pos + min(n, len(a) - pos)])
+
+
+def norm_sign(ce, v, this, args):
+    if not isinstance(v, int):
+        raise CUndec("the result is not an integer")
+    return (v > 0) - (v < 0)
+
+
+def norm_bool(ce, v, this, args):
+    if v not in (0, 1) or not isinstance(v, int):
+        raise CUndec("the result is not a bool")
+    return bool(v)
+
+
+def norm_byte(ce, v, this, args):
+    """which byte of the view the result is: a reference into the memory of the view, or (returned by value) its value"""
+    blk = this.f["ptr_"][1]
+    if isinstance(v, tuple) and v[0] == "bl":
+        if v[1] is not blk:
+            raise CUndec("a reference to memory that is not the view's")
+        return v[2]
+    if isinstance(v, int) and [c for c in blk.b if c == v & 0xFF] == [v & 0xFF]:
+        return blk.b.index(v & 0xFF)
+    raise CUndec("the result is not a character of the view")
+
+
+def norm_remaining(ce, v, this, args):
+    p, n = this.f["ptr_"], this.f["size_"]
+    if not (is_ptr(p) and isinstance(n, int)):
+        raise CUndec("the members of the view after the call")
+    if n == 0:
+        return ()
+    if p[1] is None:
+        raise COutside("the target of a null pointer")
+    return tuple(p[1].get_n(p[2], n))
+
+
+def norm_string(ce, v, this, args):
+    if not isinstance(v, Str):
+        raise CUndec("the result is not a std::string")
+    return tuple(v.bytes())
+
+
+SHOW_SIGN = {-1: "a negative value", 0: "0", 1: "a positive value"}
+
+
+def show_sign(x):
+    return SHOW_SIGN[x]
+
+
+def show_bool(x):
+    return "true" if x else "false"
+
+
+def show_byte(x):
+    return "byte %s of the view" % fmt_int(x)
+
+
+def show_bytes(x):
+    return "%s (%d byte%s)" % (fmt_bytes(x), len(x), "" if len(x) == 1 else "s")
+
+
+def value_outcome(tu, fn, mk, norm, mag):
+    this, args = mk()
+    ce = ConcEval(tu, mag)
+    try:
+        r = ce.invoke(fn, this, args)
+        if r[0] == "throw":
+            return ("throw",), ce.used_mag
+        return ("val", norm(ce, r[1], this, args)), ce.used_mag
+    except COutside as o:
+        return ("outside", o.what), ce.used_mag
+
+
+def run_value_cases(ck, tu, rule, fn, where, cases, norm, show, what, std):
+    """cases: iterable of (text of the call, factory of (this, arguments), expected value | None = throws).  The first case whose
+    evaluated outcome differs from the reference is reported; a case that cannot be evaluated makes the function 'cannot decide'."""
+    n = 0
+    for text, mk, want in cases:
+        n += 1
+        want = ("throw",) if want is None else ("val", want)
+        try:
+            got, used = value_outcome(tu, fn, mk, norm, "diff")
+            if got != want and used:
+                # the standard fixes only the sign of what the three-way primitives return (here: the difference of the first two
+                # bytes that differ, as the usual memcmp gives it; then -1 / +1): the verdict must not depend on the magnitude
+                if value_outcome(tu, fn, mk, norm, "unit")[0] == want:
+                    raise CUndec("the outcome depends on the magnitude of the value a compare primitive returns (the standard fixes its sign only)")
+        except CUndec as u:
+            raise dtable.Undecidable("%s: %s cannot be evaluated on %s: %s" % (fn.loc, sig(fn), text, u))
+        if got != want:
+            def f(o):
+                return "throws" if o[0] == "throw" else "reads %s, outside the memory of its arguments," % o[1] if o[0] == "outside" else "gives %s" % show(o[1])
+            ck.violation(rule, fn.qname, sig(fn), "%s %s where %s %s" % (text, f(got), std, f(want).rstrip(",")), fn.loc)
+            return
+    ck.ok(rule, where, "%d concrete cases (%s): every result agrees with %s" % (n, what, std), sample=dict(rule=rule, fn=sig(fn), cases=n))
+    ck.states += n
+
+
+def shape_of(fn):
+    """parameter types of fn, normalised: 'V' a StringView, 'I' size_t, 'S' const char*, 'C' char, 'T' std::string, '?' anything else"""
+    out = ""
+    for p in fn.params:
+        t = bare_ty(p["ty"])
+        out += "V" if t == SV else "I" if t in UNSIGNED64 else "S" if t == "char *" and "const char *" in p["ty"] else "C" if t == "char" else "T" if t == STD_STRING else "?"
+    return out
+
+
+def pick(tu, what, pred, shapes, optional=()):
+    """the functions selected by pred, keyed by their parameter shape: every shape of shapes exactly once, those of optional at
+    most once, no other one"""
+    found = {}
+    for f in tu.functions:
+        if pred(f):
+            s = shape_of(f)
+            if s in found or s not in tuple(shapes) + tuple(optional) or f.body is None:
+                raise dtable.Undecidable("%s: unexpected overload of %s: %s" % (f.loc, what, sig(f)))
+            found[s] = f
+    missing = [s for s in shapes if s not in found]
+    if missing:
+        raise dtable.Undecidable("%s: the overload(s) with the parameter shape(s) %s are not there (V view, I size_t, S const char*, C char, T std::string)"
+                                 % (what, ", ".join(repr(s) for s in missing)))
+    return found
+
+
+def compare_cases(shape, strings):
+    """arguments and reference for one overload of compare(); roles by position and type as std::string_view fixes them:
+    ([pos1, n1,] x [, pos2, n2 | , n2])"""
+    cstrs = [s for s in strings if 0 not in s]
+    if shape == "V":
+        for a, b in with_null(strings):
+            yield "%s.compare(%s)" % (fmt_bytes(a), fmt_bytes(b)), (lambda a=a, b=b: (make_view(a), [make_view(b)])), ref_cmp(a, b)
+    elif shape == "S":
+        for a in strings:
+            for b in cstrs:
+                yield "%s.compare(C string %s)" % (fmt_bytes(a), fmt_bytes(b)), (lambda a=a, b=b: (make_view(a), [make_cstr(b)])), ref_cmp(a, b)
+    elif shape in ("IIV", "IIS"):
+        for a in THIS_SMALL:
+            for b in (OTHER_SMALL if shape == "IIV" else [s for s in OTHER_SMALL if 0 not in s]):
+                for pos in POS_FAMILY:
+                    for n in N_FAMILY:
+                        sub = ref_substr(a, pos, n)
+                        yield ("%s.compare(%s, %s, %s%s)" % (fmt_bytes(a), fmt_int(pos), fmt_int(n), "C string " if shape == "IIS" else "", fmt_bytes(b)),
+                               (lambda a=a, b=b, pos=pos, n=n: (make_view(a), [pos, n, make_view(b) if shape == "IIV" else make_cstr(b)])),
+                               None if sub is None else ref_cmp(sub, b))
+    elif shape == "IIVII":
+        for a in THIS_SMALL:
+            for b in OTHER_SMALL[::2]:
+                for p1, n1 in POS_N_SMALL:
+                    for p2, n2 in POS_N_SMALL:
+                        s1, s2 = ref_substr(a, p1, n1), ref_substr(b, p2, n2)
+                        yield ("%s.compare(%s, %s, %s, %s, %s)" % (fmt_bytes(a), fmt_int(p1), fmt_int(n1), fmt_bytes(b), fmt_int(p2), fmt_int(n2)),
+                               (lambda a=a, b=b, p1=p1, n1=n1, p2=p2, n2=n2: (make_view(a), [p1, n1, make_view(b), p2, n2])),
+                               None if s1 is None or s2 is None else ref_cmp(s1, s2))
+    elif shape == "IISI":
+        for a in THIS_SMALL:
+            for b in OTHER_SMALL:
+                for p1, n1 in POS_N_SMALL:
+                    for n2 in range(len(b) + 2):                 # [x, x + n2) is readable up to and including the terminating NUL
+                        s1 = ref_substr(a, p1, n1)
+                        yield ("%s.compare(%s, %s, buffer %s, %d)" % (fmt_bytes(a), fmt_int(p1), fmt_int(n1), fmt_bytes(b + (0,)), n2),
+                               (lambda a=a, b=b, p1=p1, n1=n1, n2=n2: (make_view(a), [p1, n1, make_cstr(b), n2])),
+                               None if s1 is None else ref_cmp(s1, (b + (0,))[:n2]))
+
+
+def check_compare_value(ck, tu):
+    shapes = ("V", "IIV", "IIVII", "S", "IIS", "IISI")
+    fns = pick(tu, SV + "::compare", lambda f: f.record == SV and f.name == "compare", shapes)
+    strings = value_strings(ck.tier)
+    for shape in shapes:
+        fn = fns[shape]
+        ck.guarded(lambda fn=fn, shape=shape: run_value_cases(
+            ck, tu, "COMPARE-VALUE", fn, SV + "::" + sig(fn), compare_cases(shape, strings), norm_sign, show_sign,
+            "views / C strings over {00, 41, 80, 7f, ff} incl. prefixes of each other, pos / n around the size, at 2^31, 2^32, 2^63 and npos",
+            "std::string_view::compare"))
+
+
+REL_OPS = ("==", "!=", "<", ">", "<=", ">=")
+
+
+def check_operator_value(ck, tu):
+    strings = value_strings(ck.tier)
+    small = value_strings("quick")
+    for op in REL_OPS:
+        def one(op=op):
+            members = pick(tu, SV + "::operator" + op, lambda f: f.record == SV and f.kind == "operator" and f.d.get("op") == op, ("V",))
+            free = pick(tu, "tlx::operator" + op, lambda f: f.record is None and f.kind == "operator" and f.d.get("op") == op and f.qname == "tlx::operator" + op
+                        and any(bare_ty(p["ty"]) == SV for p in f.params), ("VT", "TV", "VS", "SV"))
+            want = REL[op]
+            fn = members["V"]
+
+            def member_cases():
+                for a, b in with_null(strings):
+                    yield "%s %s %s" % (fmt_bytes(a), op, fmt_bytes(b)), (lambda a=a, b=b: (make_view(a), [make_view(b)])), bool(want(ref_cmp(a, b)))
+            ck.guarded(lambda: run_value_cases(ck, tu, "OPERATOR-VALUE", fn, SV + "::" + sig(fn), member_cases(), norm_bool, show_bool,
+                                               "pairs of views over {00, 41, 80, 7f, ff} incl. prefixes of each other", "std::string_view's operator" + op))
+            for shape in ("VT", "TV", "VS", "SV"):
+                g = free[shape]
+
+                def free_cases(g=g, shape=shape):
+                    fam = [s for s in small if 0 not in s] if "S" in shape else small
+                    for a in (fam if shape[0] == "S" else small):
+                        for b in (fam if shape[1] == "S" else small):
+                            yield ("%s%s %s %s%s" % ({"V": "", "T": "std::string ", "S": "C string "}[shape[0]], fmt_bytes(a), op,
+                                                      {"V": "", "T": "std::string ", "S": "C string "}[shape[1]], fmt_bytes(b)),
+                                   (lambda a=a, b=b: (None, [make_arg(g.params[0]["ty"], a), make_arg(g.params[1]["ty"], b)])), bool(want(ref_cmp(a, b))))
+                ck.guarded(lambda g=g, free_cases=free_cases: run_value_cases(
+                    ck, tu, "OPERATOR-VALUE", g, "tlx::" + sig(g), free_cases(), norm_bool, show_bool,
+                    "a view against a std::string / C string over {00, 41, 80, 7f, ff}, either order", "std::string_view's operator" + op))
+        ck.guarded(one)
+
+
+def check_prefix_suffix_value(ck, tu):
+    strings = value_strings(ck.tier)
+    for name in ("starts_with", "ends_with"):
+        def one(name=name):
+            fns = pick(tu, SV + "::" + name, lambda f: f.record == SV and f.name == name, ("V", "C"), optional=("S",))
+            end = name == "ends_with"
+            fn = fns["V"]
+
+            def view_cases():
+                for a0, b0 in with_null(strings):
+                    a, b = a0 or (), b0 or ()
+                    yield ("%s.%s(%s)" % (fmt_bytes(a0), name, fmt_bytes(b0)), (lambda a0=a0, b0=b0: (make_view(a0), [make_view(b0)])),
+                           len(b) <= len(a) and (a[len(a) - len(b):] if end else a[:len(b)]) == b)
+            ck.guarded(lambda: run_value_cases(ck, tu, "PREFIX-SUFFIX-VALUE", fn, SV + "::" + sig(fn), view_cases(), norm_bool, show_bool,
+                                               "pairs of views over {00, 41, 80, 7f, ff}, the argument shorter, equal and longer", "std::string_view::" + name))
+            gn = fns["C"]
+
+            def char_cases():
+                for a in strings:
+                    for c in CHARS:
+                        yield ("%s.%s(char 0x%02x)" % (fmt_bytes(a), name, c), (lambda a=a, c=c: (make_view(a), [c - 256 if c >= 128 else c])),
+                               len(a) > 0 and a[-1 if end else 0] == c)
+            ck.guarded(lambda: run_value_cases(ck, tu, "PREFIX-SUFFIX-VALUE", gn, SV + "::" + sig(gn), char_cases(), norm_bool, show_bool,
+                                               "views incl. the empty one against the characters 00, 41, 7f, 80, ff", "std::string_view::" + name))
+            if "S" in fns:                       # the C string form, if the class has one
+                hn = fns["S"]
+
+                def cstr_cases():
+                    for a in strings:
+                        for b in [s for s in strings if 0 not in s]:
+                            yield ("%s.%s(C string %s)" % (fmt_bytes(a), name, fmt_bytes(b)), (lambda a=a, b=b: (make_view(a), [make_cstr(b)])),
+                                   len(b) <= len(a) and (a[len(a) - len(b):] if end else a[:len(b)]) == b)
+                ck.guarded(lambda: run_value_cases(ck, tu, "PREFIX-SUFFIX-VALUE", hn, SV + "::" + sig(hn), cstr_cases(), norm_bool, show_bool,
+                                                   "views against C strings over {41, 80, 7f, ff}", "std::string_view::" + name))
+        ck.guarded(one)
+    for name in ("remove_prefix", "remove_suffix"):
+        def two(name=name):
+            fn = pick(tu, SV + "::" + name, lambda f: f.record == SV and f.name == name, ("I",))["I"]
+
+            def cases():
+                # std::string_view::remove_prefix / remove_suffix(n) are defined for n <= size() only
+                for S in range(len(DISTINCT) + 1):
+                    a = DISTINCT[:S]
+                    for n in range(S + 1):
+                        yield ("%s.%s(%d)" % (fmt_bytes(a), name, n), (lambda a=a, n=n: (make_view(a), [n])), a[n:] if name == "remove_prefix" else a[:S - n])
+            run_value_cases(ck, tu, "PREFIX-SUFFIX-VALUE", fn, SV + "::" + sig(fn), cases(), norm_remaining, show_bytes,
+                            "views of 0..4 distinct bytes, every n <= size(): the bytes that remain in the view", "std::string_view::" + name)
+        ck.guarded(two)
+
+
+def check_element_value(ck, tu):
+    def access(name, pred, shape, cases, what):
+        def one():
+            fn = pick(tu, SV + "::" + name, pred, (shape,))[shape]
+            run_value_cases(ck, tu, "ELEMENT-ACCESS-VALUE", fn, SV + "::" + sig(fn), cases(), norm_byte, show_byte, what, "std::string_view::" + name)
+        ck.guarded(one)
+
+    def at_cases():
+        for S in range(len(DISTINCT) + 1):
+            a = DISTINCT[:S]
+            for pos in sorted(set(POS_FAMILY + (max(S - 1, 0), S, S + 1))):
+                yield "%s.at(%s)" % (fmt_bytes(a), fmt_int(pos)), (lambda a=a, pos=pos: (make_view(a), [pos])), pos if pos < S else None
+
+    def index_cases():
+        for S in range(1, len(DISTINCT) + 1):
+            a = DISTINCT[:S]
+            for pos in range(S):
+                yield "%s[%d]" % (fmt_bytes(a), pos), (lambda a=a, pos=pos: (make_view(a), [pos])), pos
+
+    def end_cases(last):
+        def gen():
+            for S in range(1, len(DISTINCT) + 1):
+                a = DISTINCT[:S]
+                yield "%s.%s()" % (fmt_bytes(a), "back" if last else "front"), (lambda a=a: (make_view(a), [])), S - 1 if last else 0
+        return gen
+    access("at", lambda f: f.record == SV and f.name == "at", "I", at_cases,
+           "views of 0..4 distinct bytes, pos inside, at size() - 1, size(), size() + 1, 2^31, 2^32, 2^63, npos: the byte referred to, or the throw (iff pos >= size())")
+    access("operator[]", lambda f: f.record == SV and f.kind == "operator" and f.d.get("op") == "[]", "I", index_cases,
+           "views of 1..4 distinct bytes, every pos < size(): the byte referred to")
+    access("front", lambda f: f.record == SV and f.name == "front", "", end_cases(False), "views of 1..4 distinct bytes: the byte referred to")
+    access("back", lambda f: f.record == SV and f.name == "back", "", end_cases(True), "views of 1..4 distinct bytes: the byte referred to")
+
+
+def check_tostring_value(ck, tu):
+    strings = value_strings(ck.tier)
+    for what, pred in (("to_string", lambda f: f.record == SV and f.name == "to_string"),
+                       ("operator std::string", lambda f: f.record == SV and f.name.startswith("operator ") and f.kind != "operator"
+                        and bare_ty(f.d.get("ret")) == STD_STRING)):
+        def one(what=what, pred=pred):
+            fn = pick(tu, SV + "::" + what, pred, ("",))[""]
+            if bare_ty(fn.d.get("ret")) != STD_STRING:
+                raise dtable.Undecidable("%s: %s does not return a std::string" % (fn.loc, what))
+
+            def cases():
+                for a in [None] + list(strings):
+                    yield "%s.%s()" % (fmt_bytes(a), what), (lambda a=a: (make_view(a), [])), tuple(a or ())
+            run_value_cases(ck, tu, "TO-STRING-VALUE", fn, SV + "::" + what, cases(), norm_string, show_bytes,
+                            "views over {00, 41, 80, 7f, ff} incl. the empty one and embedded NUL bytes: the bytes and the length of the std::string",
+                            "std::string(std::string_view)")
+        ck.guarded(one)
+
+
 def run(ck):
     ck.explanation = (
         "GUARD-TABLES: at/substr/copy and the six find-family members are evaluated on a small model (view size 0..3, pos incl. npos and "
@@ -2019,12 +3690,36 @@ def run(ck):
         "pos; REL-FROM-COMPARE: truth table of the relational members over the sign of compare(); OVERLOAD-ROLES: the 18 forwarding overloads "
         "pass (pattern, pos, n) in their roles (roles by position and type); an overload that is not one straight-line call is evaluated on a small "
         "model of (pos, n / strlen(s)) incl. the constants it mentions: every path must end in a call of another overload of the member that is "
-        "asked for the same bytes (constructors are evaluated from their initialiser lists) at pos. Search results as values are not decided.")
+        "asked for the same bytes (constructors are evaluated from their initialiser lists) at pos. Which index the find family returns once its "
+        "scan has started is not decided. "
+        "COMPARE-VALUE / OPERATOR-VALUE / PREFIX-SUFFIX-VALUE / ELEMENT-ACCESS-VALUE / TO-STRING-VALUE: the six compare() overloads, the six member "
+        "and 24 non-member comparison operators (against std::string and const char*, either order), starts_with / ends_with (view and char), "
+        "remove_prefix / remove_suffix, front / back / operator[] / at and to_string / operator std::string are interpreted on concrete arguments "
+        "(no tlx code is compiled or run: the interpreter walks the AST): integers of the LP64 types with the conversions the AST spells out "
+        "(unsigned wrap-around exact, signed overflow = cannot decide), pointers as (memory block, offset), views / std::strings / "
+        "std::string_views as objects with value semantics, constructors from their initialiser lists, calls of other members, helpers and "
+        "closures by interpreting their bodies, the std primitives (char_traits, mem*/str*, std::equal / lexicographical_compare / copy / "
+        "find_if / min / max / distance, std::string and std::string_view members) with the preconditions the standard gives them - a range "
+        "handed to a primitive must be readable completely. Arguments: every byte string over {00, 41, 80} up to length 2 (3 in the thorough "
+        "tier) and strings with 7f / ff as views, std::strings and (without NUL) C strings, in all pairs; the default-constructed view; views "
+        "of distinct bytes; pos / n in 0..4, around size(), 2^31, 2^32, 2^32+1, 2^63, npos-1, npos. Reference: Python's comparison of the byte "
+        "tuples (unsigned bytes, a proper prefix is smaller), substr = throw iff pos > size() else [pos, pos + min(n, size() - pos)), slices "
+        "for prefix / suffix. A violation names the concrete call, what the evaluated code gives (value, bytes left, byte referred to, throw, "
+        "or a read outside the memory of its arguments) and what std::string_view gives. The compare primitives return the byte difference "
+        "in the first run; a mismatch that disappears when they return -1 / +1 is 'cannot decide' (the standard fixes the sign only). "
+        "remove_prefix / remove_suffix are evaluated for n <= size() only and front / back / operator[] inside the view only: beyond that "
+        "std::string_view is undefined.")
     tu = ir.extract("witness/C18_string_view.cpp")
     # a rule that cannot decide its construct (exit 2) must not hide what another rule reports
-    for rule in (check_primitives, check_guards, check_pos_reaches, check_relational, check_overloads):
+    for rule in (check_primitives, check_guards, check_pos_reaches, check_relational, check_overloads,
+                 check_compare_value, check_operator_value, check_prefix_suffix_value, check_element_value, check_tostring_value):
         ck.guarded(lambda: rule(ck, tu))
     ck.floor("GUARD-TABLES", 9)
     ck.floor("POS-REACHES-ACCESS", 8)
     ck.floor("REL-FROM-COMPARE", 4)
     ck.floor("OVERLOAD-ROLES", 18)
+    ck.floor("COMPARE-VALUE", 6)
+    ck.floor("OPERATOR-VALUE", 30)
+    ck.floor("PREFIX-SUFFIX-VALUE", 6)
+    ck.floor("ELEMENT-ACCESS-VALUE", 4)
+    ck.floor("TO-STRING-VALUE", 2)
